@@ -58,6 +58,7 @@ func NewClient() *Client {
 		LoginPlugin:         make(map[string]CustomPayloadHandler),
 		ConfigHandler:       NewDefaultConfigHandler(),
 		CustomReportDetails: make(map[string]string),
+		Cookies:             make(map[string][]byte),
 	}
 }
 
